@@ -203,6 +203,13 @@ def check_memo(rep, unit, qual, fn, cname, writes):
         return
     kind, name, target, st = stores[0]
     K = src(target.slice)
+    ident = [x for x in ast.walk(target.slice) if isinstance(x, ast.Call) and isinstance(x.func, ast.Name) and x.func.id == 'id']
+    rep.check(not ident, 'OWN.memo-identity-key', file, qual, src(st)[:120], st.lineno,
+              'the memo %s is keyed on the identity of an object (%s): the identity stays the same when the caller modifies the object and is '
+              'handed out again once the object has been freed, so a later call receives the value stored for different contents'
+              % (name, src(ident[0]) if ident else ''))
+    if ident:
+        return
     # the guard: an If whose test is `K not in C` and whose body ends with the store (possibly nested in with/for/try)
     guard = None
     for n in ast.walk(fn):
@@ -362,9 +369,31 @@ def check_inserting_lookup(rep, unit):
                              'depend on which keys earlier calls asked for' % (name, src(r)[:60]))
 
 
+def check_shared_exception(rep, unit):
+    """`raise NAME` where NAME is bound at module level to an *instance* (a call): every failing call raises the same object, so
+    what one caller does to it (args, attributes, the traceback attached by the interpreter) is seen by the next one and by other threads."""
+    inst = {}
+    for st in unit.tree.body:
+        if isinstance(st, ast.Assign) and isinstance(st.value, ast.Call) and len(st.targets) == 1 and isinstance(st.targets[0], ast.Name):
+            inst[st.targets[0].id] = st
+    n = 0
+    for qual, fn, _cls in unit.funcs:
+        loc, _g = local_names(fn)
+        for x in ast.walk(fn):
+            if isinstance(x, ast.Raise) and x.exc is not None:
+                n += 1
+                shared = isinstance(x.exc, ast.Name) and x.exc.id in inst and x.exc.id not in loc
+                rep.check(not shared, 'OWN.shared-exception', unit.rel, qual, src(x), x.lineno,
+                          'raises the module-level instance %s (created once at import: %s): every failing call hands the same exception object to its '
+                          'caller, so annotations, args and the traceback of one call show up in later calls and in other threads'
+                          % (src(x.exc), src(inst[x.exc.id])[:80] if shared else ''), what='a fresh exception (or a class) is raised')
+    return n
+
+
 def check_unit(rep, unit, registry_owner=False):
     file = unit.rel
     check_one_shot(rep, unit)
+    check_shared_exception(rep, unit)
     check_inserting_lookup(rep, unit)
     written = {}
     for qual, fn, cls in unit.funcs:
@@ -540,6 +569,7 @@ def check(tier):
     check_inserting_lookup(probe, Unit('probe.py', 'probe.py', ast.parse('from collections import defaultdict\n_t = defaultdict(int, {1: 2})\ndef f(x):\n    return _t[x]\n')))
     if len(probe.findings) != 1:
         rep.error('OWN.inserting-lookup no longer recognises its positive example')
+    rep.expect_at_least('OWN.shared-exception', 700, 'raise statements')
     rep.expect_at_least('OWN.memo-key', 4, 'memo stores (numdb, iban, eu.vat, vatin, soap)')
     rep.expect_at_least('OWN.mutable-default', 100, 'default arguments')
     rep.not_decided = ['interleavings are not enumerated: the effect discipline makes every call a function of its arguments',
